@@ -112,7 +112,15 @@ theorem line_in_range (nm : NosecMap) (v : Visit) (st : VState) (lines : List St
                 simp only [hn] at hem
                 split at hem <;> (cases hem; rcases hf with h | h | h <;> cases h; rfl)
           subst hfm
-          simp only [mkFinding, hctx, hr]
+          have hrg : (fillId c (pr.resolve env.v)).range = none := by
+            have h1 : (fillId c (pr.resolve env.v)).range = (pr.resolve env.v).range := by
+              unfold fillId; split <;> rfl
+            rw [h1]
+            unfold PRaw.resolve
+            cases hl : pr.loc with
+            | abs a b => exact absurd hl (hna a b)
+            | _ => rfl
+          simp only [mkFinding, hctx, hr, hrg, Option.getD_none]
           refine ⟨?_, trivial⟩
           rw [mem_rangeList]
           -- where does `l` come from?
